@@ -328,7 +328,7 @@ def forms_agree(chk, nrng):
     for mode in ({}, {"autoconvert_offset_to_baseunit": True}):
         ureg = pint.UnitRegistry(**mode)
         Q = ureg.Quantity
-        for unit in ("meter", "degC", "delta_degC", "kelvin"):
+        for unit in ("meter", "degC", "delta_degC", "kelvin", "percent", "kilometer / meter", "dimensionless"):
             a = nrng.uniform(1.0, 9.0, size=(2, 3))
 
             def outcome(f):
